@@ -5,25 +5,25 @@ from .cgt import cgt_family, law_family, report_family, calendar_family, fx_fami
 
 
 def c01(tier, seed):
-    return combine(fam_list(tier, ['core_q', 'frac_q', 'split_q', 'two_split_q'], ['core_t', 'split_t', 'two_q']), 'multi_leg_disposals',
+    return combine(fam_list(tier, ['core_q', 'frac_q', 'split_q', 'split5_q', 'two_split_q'], ['core_t', 'split_t', 'two_q']), 'multi_leg_disposals',
                    'every cell ledger of the family (TLC-enumerated) x base dates; non-trivial = ledgers with a disposal '
                    'identified by two or more legs')
 
 
 def c02(tier, seed):
-    return combine(fam_list(tier, ['core_q', 'frac_q', 'split_q', 'two_split_q'], ['core_t', 'split_t', 'events_q']), 'covered',
+    return combine(fam_list(tier, ['core_q', 'frac_q', 'split_q', 'split5_q', 'two_split_q'], ['core_t', 'split_t', 'events_q']), 'covered',
                    'every cell ledger of the family; non-trivial = accepted (covered) ledgers, on which the three '
                    'conservation equalities are evaluated on the implementation\'s own report')
 
 
 def c03(tier, seed):
-    return combine(fam_list(tier, ['core_q', 'split_q', 'events_q'], ['core_t', 'split_t', 'events_t', 'events_split_t']), 'covered',
+    return combine(fam_list(tier, ['core_q', 'split_q', 'events_q', 'events_split_q'], ['core_t', 'split_t', 'events_t', 'events_split_t']), 'covered',
                    'every cell ledger of the family; non-trivial = accepted ledgers (legs + closing cost vs expenditure); '
                    'for ledgers with capital events TLC re-runs the specification on the observed apportionment')
 
 
 def c05(tier, seed):
-    return combine(fam_list(tier, ['core_q', 'frac_q', 'split_q', 'two_split_q'], ['core_t', 'split_t', 'two_q']), 'uncovered',
+    return combine(fam_list(tier, ['core_q', 'frac_q', 'split_q', 'split5_q', 'two_split_q'], ['core_t', 'split_t', 'two_q']), 'uncovered',
                    'every cell ledger of the family, covered or not; non-trivial = uncovered ledgers (must be refused '
                    'naming security and date); covered ones must be accepted')
 
@@ -48,7 +48,7 @@ def laws(tier, quick, thorough):
 
 
 def c10(tier, seed):
-    return combine(laws(tier, ['rescale_q', 'unsplit_q'], ['rescale_t', 'rescale5_t', 'unsplit_t']) + fam_list(tier, ['split_q', 'two_split_q'], ['split_t', 'events_split_t']),
+    return combine(laws(tier, ['rescale_q', 'rescale_two_q', 'unsplit_q'], ['rescale_t', 'rescale5_t', 'unsplit_t']) + fam_list(tier, ['split_q', 'two_split_q', 'events_split_q'], ['split_t', 'events_split_t']),
                    ['nontrivial', 'with_splits'],
                    'pairs (ledger with one split at every position, same ledger rewritten in post-split units) and (ledger, '
                    'ledger + SPLIT f .. UNSPLIT f with no trade between): TLC checks the law between the two specification '
@@ -57,7 +57,7 @@ def c10(tier, seed):
 
 
 def c12(tier, seed):
-    return combine(laws(tier, ['extend_q'], ['extend_t']), 'nontrivial',
+    return combine(laws(tier, ['extend_q', 'extend_events_q'], ['extend_t']), 'nontrivial',
                    'pairs (prefix, prefix + buys/sells/splits dated more than 30 days after it): TLC checks that the '
                    'prefix\'s legs are unchanged and that a failure can only be dated in the extension; the harness demands '
                    'the same of two implementation runs; non-trivial = accepted prefixes with at least one disposal')
@@ -97,7 +97,7 @@ def c08(tier, seed):
 
 
 def c11(tier, seed):
-    return combine(fam_list(tier, ['events_q'], ['events_t', 'events_split_t']), 'with_events',
+    return combine(fam_list(tier, ['events_q', 'events_split_q'], ['events_t', 'events_split_t']), 'with_events',
                    'cell ledgers with a capital return / accumulation cell at every position; TLC judges the observed '
                    'per-lot apportionment (never on later acquisitions, sums to the net amount, nothing negative); '
                    'conservation of the amount, s122 refusal of unabsorbable returns, dividend inertness; '
